@@ -205,7 +205,21 @@ class Comprehend(_Bodies):
         scope = self.fn[-1] if self.fn else None
         if scope is None:
             return True
-        return any(isinstance(y, ast.Name) and y.id in names and id(y) not in inside for y in ast.walk(scope))
+        # occurrences inside another loop / comprehension that binds the name itself (and is not nested with this loop) are
+        # that loop's own variable, not a use of what this loop leaves behind
+        own = set()
+        for other in ast.walk(scope):
+            if other is loop or id(other) in inside:
+                continue
+            if isinstance(other, ast.For) and not any(z is loop for z in ast.walk(other)):
+                tn = {y.id for y in ast.walk(other.target) if isinstance(y, ast.Name)}
+                if names <= tn:
+                    own |= {id(y) for part in [other.target] + other.body for y in ast.walk(part)}
+            elif isinstance(other, (ast.ListComp, ast.SetComp, ast.DictComp, ast.GeneratorExp)):
+                tn = {y.id for g in other.generators for y in ast.walk(g.target) if isinstance(y, ast.Name)}
+                if names <= tn:
+                    own |= {id(y) for y in ast.walk(other)} - {id(y) for y in ast.walk(other.generators[0].iter)}
+        return any(isinstance(y, ast.Name) and y.id in names and id(y) not in inside and id(y) not in own for y in ast.walk(scope))
 
     @staticmethod
     def _empty(v):
@@ -252,6 +266,23 @@ class Comprehend(_Bodies):
                     out.append(st)
                     i += 2
                     done = True
+            # n = 0; for x in it: [if c:] n += e      ->      n = sum(e for x in it [if c])
+            if not done and isinstance(st, ast.Assign) and len(st.targets) == 1 and isinstance(st.targets[0], ast.Name) \
+                    and isinstance(st.value, ast.Constant) and st.value.value == 0 and type(st.value.value) is int \
+                    and isinstance(nxt, ast.For) and not nxt.orelse and len(nxt.body) == 1:
+                name = st.targets[0].id
+                inner, conds = nxt.body[0], []
+                while isinstance(inner, ast.If) and not inner.orelse and len(inner.body) == 1:
+                    conds.append(inner.test)
+                    inner = inner.body[0]
+                uses_self = lambda e: any(isinstance(y, ast.Name) and y.id == name for y in ast.walk(e))
+                if isinstance(inner, ast.AugAssign) and isinstance(inner.op, ast.Add) and isinstance(inner.target, ast.Name) and inner.target.id == name \
+                        and not uses_self(inner.value) and not uses_self(nxt.iter) and not any(uses_self(c) for c in conds) and not self._leaks(nxt):
+                    gen = ast.GeneratorExp(elt=inner.value, generators=[ast.comprehension(target=nxt.target, iter=nxt.iter, ifs=conds, is_async=0)])
+                    st.value = _loc(ast.Call(func=ast.Name(id="sum", ctx=ast.Load()), args=[gen], keywords=[]), nxt)
+                    out.append(st)
+                    i += 2
+                    done = True
             if not done:
                 out.append(st)
                 i += 1
@@ -291,7 +322,25 @@ class Alias(_Bodies):
         return body
 
 
-PASSES = (Expand, Nest, Orient, Merge, Compare, Comprehend, Alias)
+class Untuple(_Bodies):
+    """`a, b = x, y` with independent sides (no right-hand element mentions a target) is two assignments"""
+
+    def process(self, body):
+        out = []
+        for st in body:
+            if isinstance(st, ast.Assign) and len(st.targets) == 1 and isinstance(st.targets[0], ast.Tuple) and isinstance(st.value, ast.Tuple) \
+                    and len(st.targets[0].elts) == len(st.value.elts) and all(isinstance(e, ast.Name) for e in st.targets[0].elts) \
+                    and not any(isinstance(e, ast.Starred) for e in st.value.elts):
+                tn = {e.id for e in st.targets[0].elts}
+                if len(tn) == len(st.targets[0].elts) and not any(isinstance(y, ast.Name) and y.id in tn for e in st.value.elts for y in ast.walk(e)):
+                    for tg, v in zip(st.targets[0].elts, st.value.elts):
+                        out.append(_loc(ast.Assign(targets=[tg], value=v), v))
+                    continue
+            out.append(st)
+        return out
+
+
+PASSES = (Untuple, Expand, Nest, Orient, Merge, Compare, Comprehend, Alias)
 
 
 def normalise(tree, passes=PASSES):
